@@ -802,6 +802,11 @@ func (e *E2) callObl(f *FA, call *ssa.Call, facts []Fact, tainted map[ssa.Value]
 // callRange: interval of the integer result of a call to module functions (join over callees
 // and return sites, evaluated in the callee with closed-world field ranges). One level deep.
 func (c *Ctx) callRange(call *ssa.Call) (int64, int64, bool) {
+	if c.crDepth > 2 {
+		return 0, 0, false
+	}
+	c.crDepth++
+	defer func() { c.crDepth-- }()
 	cs := c.CalleesAt(call)
 	if len(cs.External) > 0 || len(cs.Mod) == 0 {
 		return 0, 0, false
@@ -842,7 +847,7 @@ func (c *Ctx) summaryFA(fn *ssa.Function) *FA {
 	if f, ok := c.sumFA[fn]; ok {
 		return f
 	}
-	f := c.NewFA(fn) // no CallRange hook: one level only
+	f := c.NewFA(fn)
 	c.sumFA[fn] = f
 	return f
 }
